@@ -110,11 +110,14 @@ contract(
                 major=P.int(0, 255), minor=P.int(0, 255), status=P.bytes(len=2), serial=P.int(0, 2**32 - 1),
                 name=P.str(maxlen=255, maxcp=0xFF)),
     setup=LD + [f"t = spec.env.Transport([spec.msgrouter.unconnected_reply(0x01, 0, spec.identity.identity_bytes({F}))])", "d._sock = t",
+                "route_before = pycomm3.cip.data_types.PADDED_EPATH.encode(d._cfg['cip_path'], length=True, pad_length=True)",
                 "us = lambda: spec.msgrouter.try_parse_unconnected_send(spec.encap.try_parse_frame(t.sent[0])[3][1])"],
     ensures=[f"result == spec.identity.identity_view({F})",
              "spec.msgrouter.try_parse_request(us()[0]) == (0x01, [('logical', 'class_id', 1), ('logical', 'instance_id', 1)], b'')",
-             "us()[1] == [('port', 1, bytes([slot]))]"],
-    props=["C14", "C16"])
+             "us()[1] == [('port', 1, bytes([slot]))]",
+             # frame: asking another slot does not re-route the driver itself
+             "pycomm3.cip.data_types.PADDED_EPATH.encode(d._cfg['cip_path'], length=True, pad_length=True) == route_before"],
+    props=["C14", "C16", "C15"])
 contract(
     id="plc_info", func="pycomm3.logix_driver.LogixDriver.get_plc_info", call="d.get_plc_info()",
     params=dict(SC, vendor=P.int(0, 65535), product_type=P.int(0, 65535), product_code=P.int(0, 65535),
@@ -188,3 +191,14 @@ for _granted in (True, False):
         ensures=[f"result == {_granted}", f"inits == {[{'init_tags': True, 'init_program_tags': True}] if _granted else []}",
                  "d.connected == True", "spec.env.frame_kinds(t.sent) == ['register']"],
         props=["C10", "C14"])
+
+# frame: what get_plc_info returns is what the controller answered THIS time (status / keyswitch change between two polls)
+contract(
+    id="plc_info.fresh", func="pycomm3.logix_driver.LogixDriver.get_plc_info", call="d.get_plc_info()",
+    params=dict(SC, major=P.int(0, 255), minor=P.int(0, 255), status=P.bytes(len=2), serial=P.int(0, 2**32 - 1), name=P.str(maxlen=40, maxcp=0x7F),
+                status1=P.const("b'\\x60\\x30'"), name1=P.const("'1756-L83E/B'")),
+    setup=LD + ["t = spec.env.Transport([spec.msgrouter.unconnected_reply(0x01, 0, spec.identity.identity_bytes(1, 14, 55, 3, 1, status1, 7, name1)), "
+                "spec.msgrouter.unconnected_reply(0x01, 0, spec.identity.identity_bytes(1, 14, 56, major, minor, status, serial, name))])", "d._sock = t",
+                "earlier = d.get_plc_info()", "d._info = earlier",
+                "expect = spec.identity.identity_view(1, 14, 56, major, minor, status, serial, name)"],
+    ensures=["all(result[k] == expect[k] for k in expect)", "len(t.sent) == 2"], props=["C14", "C16"])
